@@ -101,8 +101,43 @@ type readResult struct {
 func readAll(c *core.Ctx, r io.Reader, rs int, retries int) readResult {
 	var res readResult
 	res.eofAtLen, res.errAtLen = -1, -1
-	bufMode := c.Pick("caller.bufMode", 4) // 0 large, 1 rs-relative mix, 2 tiny, 3 includes zero-length
+	bufMode := c.Pick("caller.bufMode", 5) // 0 large, 1 rs-relative mix, 2 tiny, 3 includes zero-length, 4 sniff then io.Copy
 	budget := 0
+	if bufMode == 4 {
+		// the caller sniffs the first bytes with a small Read, then hands the reader to
+		// io.Copy (which uses the reader's WriteTo if it has one)
+		n := c.PickInt("caller.sniff", 1, 4, rs-1, rs, rs+1, 512)
+		if n < 1 {
+			n = 1
+		}
+		buf := make([]byte, n)
+		k, err := r.Read(buf)
+		res.calls++
+		if k < 0 || k > n {
+			c.Violation("read-contract", "decoder.Read", "Read returned n=%d for a %d-byte buffer", k, n)
+		}
+		res.out = append(res.out, buf[:k]...)
+		c.Probe("caller sniffs, then io.Copy")
+		if err == nil {
+			var sink bytes.Buffer
+			_, err = io.Copy(&sink, r)
+			res.calls++
+			res.out = append(res.out, sink.Bytes()...)
+			if err == nil {
+				err = io.EOF // io.Copy reports a clean end of stream as nil
+			}
+		}
+		if err == io.EOF {
+			res.eof, res.eofAtLen, res.eofClean = true, len(res.out), true
+		} else {
+			res.firstErr, res.errAtLen = err, len(res.out)
+		}
+		bufMode = 0
+		if retries == 0 {
+			return res
+		}
+		retries--
+	}
 	for {
 		var n int
 		switch bufMode {
